@@ -60,7 +60,7 @@ VARIABLES ps,         \* [Procs -> [pc, tok, acc, err, kind]]
           lost,       \* items taken from the iterator but not passed on (dropped at the cancelled select)
           failed,     \* items whose token a failing Run dropped
           consumed,   \* sequence of tokens the consumer received
-          result      \* [isDone, err] once wait() returned, else "none"
+          result      \* [isDone, err] once wait() returned (err = -1 before)
 
 vars == <<ps, sq, rq, closed, cancelled, next, isDone, returned, stageErr, gErr, nfail, runs, dones, lost, failed, consumed, result>>
 
@@ -73,7 +73,7 @@ Init ==
   /\ closed = [c \in 0..K |-> FALSE] /\ cancelled = FALSE /\ next = 1 /\ isDone = FALSE
   /\ returned = {} /\ stageErr = [k \in 1..K |-> 0] /\ gErr = 0 /\ nfail = 0
   /\ runs = [k \in 1..K |-> [x \in Items |-> 0]] /\ dones = [p \in Workers |-> 0]
-  /\ lost = {} /\ failed = {} /\ consumed = <<>> /\ result = "none"
+  /\ lost = {} /\ failed = {} /\ consumed = <<>> /\ result = [isDone |-> FALSE, err |-> -1]
 
 (* ---- channel mechanics ---------------------------------------------------------------- *)
 Pick(q) == IF FIFO THEN {1} ELSE 1..Len(q)
